@@ -140,10 +140,10 @@ def iparamBool : Arg → Except PyExc Arg
   | .none => .ok .none
   | _ => .error .typeError
 
-/-- `_iparam_positive_integer`; also `_validate_MaxObjectCount_OpenPull` (same outcome classes: bool is an int) -/
+/-- `_iparam_positive_integer`; also `_validate_MaxObjectCount_OpenPull` (same outcome classes; a bool is
+    rejected although it is an int in Python) -/
 def iparamPosInt : Arg → Except PyExc Arg
   | .int i => if i < 0 then .error .valueError else .ok (.int i)
-  | .bool b => .ok (.bool b)
   | .none => .ok .none
   | _ => .error .typeError
 
@@ -412,12 +412,15 @@ def atomParamXml (C : Codec) : Atom → Except PyExc (Option Xml)
   | .pyint _ | .pyfloat _ => .error .assertionError
   | a => do let x ← checked (valueElem (atomText C a)); .ok (some x)
 
-def itemParamXml (C : Codec) : PItem → Except PyExc (Option Xml)
-  | .atom a => atomParamXml C a
-  | .null => .ok none
-  | .list => .ok (some (E "VALUE.ARRAY" [] []))     -- placeholder: rejected below before it is used
+/-- one item of an array parameter value: `paramvalue(x) if x is not None else arrayitem_null()` -/
+def itemParamXml (C : Codec) : PItem → Except PyExc Xml
+  | .null | .atom .null => .ok nullItem
+  | .atom (.ref p) => do let x ← checked (encPath C p); .ok (E "VALUE.REFERENCE" [] [x])
+  | .atom (.pyint _) | .atom (.pyfloat _) => .error .assertionError
+  | .atom a => checked (valueElem (atomText C a))
+  | .list => .ok nullItem                            -- placeholder: rejected before it is used
 
-def itemsParamXml (C : Codec) : List PItem → Except PyExc (List (Option Xml))
+def itemsParamXml (C : Codec) : List PItem → Except PyExc (List Xml)
   | [] => .ok []
   | i :: is => do let x ← itemParamXml C i; let xs ← itemsParamXml C is; .ok (x :: xs)
 
@@ -443,8 +446,7 @@ def arrayParamXml (C : Codec) (l : List PItem) : Except PyExc (Option Xml) :=
   if l.any (itemMismatch (isRefArray l)) then .error .typeError
   else do
     let xs ← itemsParamXml C l
-    if xs.any Option.isNone then .error .attributeError        -- appendChild(None)
-    else .ok (some (E (if isRefArray l then "VALUE.REFARRAY" else "VALUE.ARRAY") [] (xs.filterMap id)))
+    .ok (some (E (if isRefArray l then "VALUE.REFARRAY" else "VALUE.ARRAY") [] xs))
 
 /-- `paramvalue` -/
 def paramValueXml (C : Codec) : PVal → Except PyExc (Option Xml)
